@@ -209,8 +209,13 @@ func (d *Document) SetPageSettings(settings *PageSettings) error {
 
 // GetPageSettings 获取当前文档的页面设置
 func (d *Document) GetPageSettings() *PageSettings {
-	sectPr := d.getSectionProperties()
 	settings := DefaultPageSettings()
+
+	// 只读取，不创建：文档中还没有节属性时返回默认设置，而不是往文档主体里追加一个空的节属性
+	sectPr := d.findSectionProperties()
+	if sectPr == nil {
+		return settings
+	}
 
 	if sectPr.PageSize != nil {
 		// 解析页面尺寸
@@ -332,6 +337,19 @@ func (d *Document) SetGutterWidth(width float64) error {
 	settings := d.GetPageSettings()
 	settings.GutterWidth = width
 	return d.SetPageSettings(settings)
+}
+
+// findSectionProperties 查找已存在的节属性，不存在时返回nil（不修改文档）
+func (d *Document) findSectionProperties() *SectionProperties {
+	if d.Body == nil {
+		return nil
+	}
+	for _, element := range d.Body.Elements {
+		if sectPr, ok := element.(*SectionProperties); ok {
+			return sectPr
+		}
+	}
+	return nil
 }
 
 // getSectionProperties 获取或创建节属性
